@@ -46,18 +46,26 @@ test, mutated module-level state that `make` does not reset, the iteration order
 (`asyncio.wait` returns sets), real threads, GC-timed "exception was never retrieved" messages
 (collected in `loop.reported`, never part of an observation).
 
+Bounds of one execution: `max_handles` ready-queue handles, `max_choices` choices (outcome "horizon"),
+and optionally `watchdog_s` seconds of CPU (ITIMER_VIRTUAL; outcome "spin": a callback that never
+yields, e.g. `while cond: await already_set_event.wait()`).  "No enabled choice but an unfinished
+harness task (or a never started arrival)" is outcome "stuck" = deadlock.
+
 API (10 lines)
 --------------
   loop = VirtualLoop(); loop.install(); loop.drain(); loop.run_iteration(); loop.pending_timers();
          loop.fire(handle); loop.uninstall(); loop.close()          # the bare loop, usable alone
-  env = Env(granularity=, timer_policy=, order=, max_handles=)      # one execution
-  env.arrival(label, factory, gate=None); env.external(label, result=None, exception=None);
-  env.spawn(label, coro); env.run_now(coro)                          # registering / setup helpers
-  env.enabled() -> [label]; env.take(label); env.settle()            # stepping by hand (used by replay())
-  env.results, env.trace, env.unfinished(), env.background_failures(), env.where_blocked(label)
-  run_script(make, labels, **env_kw) -> (env, world)                 # one scripted execution
-  Explorer(make, on_execution, observe=None, max_choices=, max_deviations=, validate_mod=, deadline=,
-           **env_kw).run() -> stats dict (executions, states, transitions, choices_executed, ...)
+  env = Env(granularity="quiescence"|"iteration", timer_policy="when"|"any", order=("start","ext","timer"),
+            max_handles=20000)                                       # one execution (installs its loop)
+  env.arrival(label, factory, gate=None); env.external(label, result=None, exception=None) -> Future;
+  env.spawn(label, coro); env.run_now(coro) -> result                # registering / setup helpers
+  env.enabled() -> [label]; env.take(label); env.settle(); env.close()   # stepping by hand
+  env.results {label: ("ok", v) | ("exc", e) | ("cancelled",)}, env.trace, env.unfinished(), env.all_done(),
+  env.background_failures() -> [(coro name, exc)], env.where_blocked(label) -> ([coro names], awaited future)
+  run_script(make, labels, on_step=None, watchdog_s=None, **env_kw) -> (env, world, outcome)   # replay one schedule
+  Explorer(make, on_execution, observe=None, max_choices=200, max_deviations=None, validate_mod=0, deadline=None,
+           stop_when_done=True, on_step=None, watchdog_s=None, **env_kw).run() -> stats {executions, states,
+           transitions, choices_executed, handles_run, executor_calls, validated, bound_pruned, complete, ...}
 """
 from __future__ import annotations
 
